@@ -89,6 +89,8 @@ fn c19_cost_formula() {
     if let Some(unit) = spec_unit(k, addr, &c) {
         kani::cover!(unit == 14, "COVER:max_unit");
         kani::cover!(unit == 2 && addr < 0x200000, "COVER:two_state_area0");
+        // what the cost seam of the instruction harnesses assumes of this function: 1 for internal cycles, 1..=14 otherwise
+        assert!(unit >= 1 && unit <= 14 && (k != isa::K_N || unit == 1), "OBL:C19/calc_state_with_addr/unit_range_assumed_by_the_cost_seam");
         assert!(r.is_ok(), "OBL:C19/calc_state_with_addr/ok");
         if let Ok(v) = r {
             assert!(v == n * unit, "OBL:C19/calc_state_with_addr/n_times_unit_of_own_area");
